@@ -416,6 +416,7 @@ func TestC10(t *testing.T) {
 	r := newRun(t, "C10", "exploration")
 	defer r.Finish()
 	r.Rule = "(a) seeded operation sequences on a real node with two channels: local SwapIn/SwapOut, incoming requests (channel ids in both spellings), cancel, restart, and requests arriving in the restart window before RecoverSwaps; after every step the persisted non-terminal swaps are grouped by normalised channel id (<=1 each) and busy channels must answer cancel. (b) 6-11 goroutines acquire/release 1-2 channels concurrently through the real entry points; the boundary history is checked with porcupine against a per-channel test-and-set model (race-detector build). distinct = (op, spelling, busy, outcome) / (workers, channels, checker result)"
+	r.Rule += " One in three starting operations of the sequences runs with a transient store error (the 2nd or 3rd write of the new swap fails once)."
 	r.Assumptions = []string{"a refusal on a free channel is not judged (only success is constrained by the model)"}
 	n := r.N(300, 6000)
 	parallelDo(n, 8, func(i int) { runC10Seq(r, r.Seed*9176+int64(i)+1) })
